@@ -147,8 +147,8 @@ class Probes:
 
     def install_box_sanitizer(self):
         """Box-nesting sanitizer on tracer.new_box (looked up as a module global at every call): the raw value
-        wrapped by a box of trace t is either free of boxes, or itself a box of a strictly smaller trace id
-        (an enclosing differentiation). An object-dtype array, or a container with boxes inside, as the value
+        wrapped by a box of trace t is either free of boxes, or itself a box of a trace that is not later
+        (an enclosing differentiation, or - for primitive(fun) around a closure - the same one). An object-dtype array, or a container with boxes inside, as the value
         of a box means a tracer reached raw NumPy. Violations are recorded in self.box_problems."""
         common.setup_repo()
         import autograd.tracer as tracer
@@ -165,8 +165,10 @@ class Probes:
             P.boxes_checked += 1
             try:
                 if tracer.isbox(value):
-                    if not value._trace < trace:
-                        P.box_problems.append(("box_nesting_order", "box of trace %r wraps a box of trace %r" % (trace, value._trace)))
+                    # equal ids are legitimate: primitive(fun) around a Python function that closes over a value of
+                    # the same trace (checkpoint(f) with a traced closure variable) boxes a result of that trace again
+                    if value._trace > trace:
+                        P.box_problems.append(("box_nesting_order", "box of trace %r wraps a box of the later trace %r" % (trace, value._trace)))
                 elif isinstance(value, onp.ndarray):
                     if value.dtype == object:
                         P.box_problems.append(("object_array_in_box", "value of a new box is an object-dtype array %r" % (value.shape,)))
